@@ -924,7 +924,8 @@ def _get_alpha_data(data: np.ndarray, kwargs) -> np.ndarray:
     if hasattr(alpha, "__call__"):
         return np.vectorize(alpha)(data)
     if np.isscalar(alpha):
-        return np.ones_like(data) * alpha
+        # (plain array: the colour data may be masked, e.g. empty bins on a log scale)
+        return np.ones(np.shape(data)) * alpha
     return alpha
 
 
